@@ -96,6 +96,11 @@ class Conc:
                     text += "loop_\n" + "".join(" %s\n" % self.name(n) for n in b["loop"]["names"])
                     for row in b["loop"]["rows"]:
                         text += " ".join(self.render_value(v) for v in row) + "\n"
+                for f in b.get("frames", []):
+                    text += "save_%s\n" % self.code(f["code"])
+                    for n, v in f["items"]:
+                        text += "%s %s\n" % (self.name(n), self.render_value(v))
+                    text += "save_\n"
             return {"op": "parse", "cif": e["cif"], "text": text, "errors": "accept"}
         c = {"op": op}
         for k in ("cif", "cont", "loop", "h"):
